@@ -98,8 +98,18 @@ inline Gen<Value> doc_value(const DocOpts &o) {
                                                       : shortline() + u"\n" + shortline() + u"\n" + longline;
                                   return Value::chr(s, true);
                               });
-    if (o.hard_text) return rc::gen::weightedOneOf<Value>({{30, value(o.vo, 0)}, {1, longv}, {1, foldv}, {1, tailv}, {7, hard_text(o.dialect == cp::CIF11)}});
-    return rc::gen::weightedOneOf<Value>({{30, value(o.vo, 0)}, {1, longv}, {1, foldv}, {1, tailv}});
+    // values that need the text-prefix protocol (a line starting with ';', no triple-quoted form possible in CIF 2.0) AND hold a line
+    // whose length is within a few characters of the line limit (the prefix takes two characters of every line)
+    auto pfxv = rc::gen::map(rc::gen::tuple(range(2038, 2052), range(0, 3)),
+                             [c2](std::tuple<int, int> t) {
+                                 int n = std::get<0>(t), shape = std::get<1>(t);
+                                 ustr head = c2 ? ustr(u"a\n;b \'\'\' \"\"\"") : ustr(u"a\n;b");
+                                 ustr longline((size_t) n, u'x');
+                                 ustr s = shape == 0 ? head + u"\n" + longline : shape == 1 ? longline + u"\n" + head : shape == 2 ? head + u"\n" + longline + u"\nz" : longline.substr(0, (size_t) n - 8) + u"\n;" + head;
+                                 return Value::chr(s, true);
+                             });
+    if (o.hard_text) return rc::gen::weightedOneOf<Value>({{30, value(o.vo, 0)}, {1, longv}, {1, foldv}, {1, tailv}, {1, pfxv}, {7, hard_text(o.dialect == cp::CIF11)}});
+    return rc::gen::weightedOneOf<Value>({{30, value(o.vo, 0)}, {1, longv}, {1, foldv}, {1, tailv}, {1, pfxv}});
 }
 
 inline Gen<Container> container(const DocOpts &o, const char16_t *stem, int idx, int depth) {
